@@ -159,14 +159,22 @@ func (s *LCOMServiceImpl) sortClasses(classes []domain.ClassCohesion, sortBy dom
 	sorted := make([]domain.ClassCohesion, len(classes))
 	copy(sorted, classes)
 
+	// Ties are broken by location (file path, start line, name) so that the
+	// output order is deterministic.
 	switch sortBy {
 	case domain.SortByCohesion:
 		sort.Slice(sorted, func(i, j int) bool {
-			return sorted[i].Metrics.LCOM4 > sorted[j].Metrics.LCOM4
+			if sorted[i].Metrics.LCOM4 != sorted[j].Metrics.LCOM4 {
+				return sorted[i].Metrics.LCOM4 > sorted[j].Metrics.LCOM4
+			}
+			return lessClassCohesionLocation(sorted[i], sorted[j])
 		})
 	case domain.SortByName:
 		sort.Slice(sorted, func(i, j int) bool {
-			return sorted[i].Name < sorted[j].Name
+			if sorted[i].Name != sorted[j].Name {
+				return sorted[i].Name < sorted[j].Name
+			}
+			return lessClassCohesionLocation(sorted[i], sorted[j])
 		})
 	case domain.SortByRisk:
 		sort.Slice(sorted, func(i, j int) bool {
@@ -175,22 +183,37 @@ func (s *LCOMServiceImpl) sortClasses(classes []domain.ClassCohesion, sortBy dom
 				domain.RiskLevelMedium: 2,
 				domain.RiskLevelLow:    1,
 			}
-			return riskOrder[sorted[i].RiskLevel] > riskOrder[sorted[j].RiskLevel]
+			if riskOrder[sorted[i].RiskLevel] != riskOrder[sorted[j].RiskLevel] {
+				return riskOrder[sorted[i].RiskLevel] > riskOrder[sorted[j].RiskLevel]
+			}
+			return lessClassCohesionLocation(sorted[i], sorted[j])
 		})
 	case domain.SortByLocation:
 		sort.Slice(sorted, func(i, j int) bool {
-			if sorted[i].FilePath != sorted[j].FilePath {
-				return sorted[i].FilePath < sorted[j].FilePath
-			}
-			return sorted[i].StartLine < sorted[j].StartLine
+			return lessClassCohesionLocation(sorted[i], sorted[j])
 		})
 	default:
 		sort.Slice(sorted, func(i, j int) bool {
-			return sorted[i].Metrics.LCOM4 > sorted[j].Metrics.LCOM4
+			if sorted[i].Metrics.LCOM4 != sorted[j].Metrics.LCOM4 {
+				return sorted[i].Metrics.LCOM4 > sorted[j].Metrics.LCOM4
+			}
+			return lessClassCohesionLocation(sorted[i], sorted[j])
 		})
 	}
 
 	return sorted
+}
+
+// lessClassCohesionLocation orders classes by file path, start line and name.
+// It is used as a deterministic tie-breaker when the primary sort keys are equal.
+func lessClassCohesionLocation(a, b domain.ClassCohesion) bool {
+	if a.FilePath != b.FilePath {
+		return a.FilePath < b.FilePath
+	}
+	if a.StartLine != b.StartLine {
+		return a.StartLine < b.StartLine
+	}
+	return a.Name < b.Name
 }
 
 // generateSummary creates aggregate LCOM statistics
@@ -245,7 +268,10 @@ func (s *LCOMServiceImpl) generateSummary(classes []domain.ClassCohesion, filesA
 	sortedByLCOM := make([]domain.ClassCohesion, len(classes))
 	copy(sortedByLCOM, classes)
 	sort.Slice(sortedByLCOM, func(i, j int) bool {
-		return sortedByLCOM[i].Metrics.LCOM4 > sortedByLCOM[j].Metrics.LCOM4
+		if sortedByLCOM[i].Metrics.LCOM4 != sortedByLCOM[j].Metrics.LCOM4 {
+			return sortedByLCOM[i].Metrics.LCOM4 > sortedByLCOM[j].Metrics.LCOM4
+		}
+		return lessClassCohesionLocation(sortedByLCOM[i], sortedByLCOM[j])
 	})
 
 	maxTopClasses := 10
